@@ -88,7 +88,11 @@ def true_value(d, tol=1e-7, maxit=120):
         return 'empty-set', None
     for p in obj_pieces():
         add_obj_cut(z0, p)
-    for con in d['cons']:
+    cons = d['cons'] + O.late_con(d)
+    if d.get('late'):
+        r, _ = row_of(d, idx, mask, n, np.array(d['late']['g'], dtype=float), 0.0, np.zeros(nz), 0.0)
+        A_eq.append(r); b_eq.append(0.0)
+    for con in cons:
         S = con['own'] if con['own'] is not None else d['S0']
         zc = any_point(S)
         if zc is None:
@@ -101,7 +105,8 @@ def true_value(d, tol=1e-7, maxit=120):
     big = 1e4
     for it in range(maxit):
         bnds = [(-big, big)] + bounds[1:1 + nd] + [(-big, big)] * (n - 1 - nd)
-        res = linprog(cvec, A_ub=np.array(cuts_A), b_ub=np.array(cuts_b), bounds=bnds, method='highs')
+        res = linprog(cvec, A_ub=np.array(cuts_A), b_ub=np.array(cuts_b), bounds=bnds, method='highs',
+                      A_eq=np.array(A_eq) if A_eq else None, b_eq=np.array(b_eq) if A_eq else None)
         if res.status == 2:
             return 'infeasible', None
         if res.status != 0:
@@ -121,7 +126,7 @@ def true_value(d, tol=1e-7, maxit=120):
             viol = (v[0] - worst) if o['max'] else (worst - v[0])
             if viol > tol * (1 + abs(worst)):
                 add_obj_cut(zw, p); added += 1
-        for con in d['cons']:
+        for con in cons:
             S = con['own'] if con['own'] is not None else d['S0']
             for k in range(con['rows']):
                 R = np.array(con['R'][k]); r0 = np.array(con['r0'][k]); a = np.array(con['a'][k]); a0 = con['a0'][k]
